@@ -1,6 +1,7 @@
 -- line-protocol handler of property C12 (serialization round trip); op lines mirror harness/src/bin/c12.rs
 import Winter.Drv.Util
 import Winter.Model.Serde
+import Winter.Model.SerdeGen
 
 namespace Drv.C12
 open Model Model.Serde
@@ -732,7 +733,13 @@ def opDec (A : AnyCodec) (h : String) : String :=
 
 def opVint (v : Nat) : String :=
   let b := writeUsize v
-  s!"{hexOf b} {b.length}"
+  -- tie T: the same through the integer logic regenerated from the Rust source on this run (a difference
+  -- between model and regenerated definitions shows up as a disagreement with the compiled code)
+  let bg := writeUsizeG v
+  let rt := match readUsizeG bg with
+    | .ok (x, []) => x == v % 18446744073709551616
+    | _ => false
+  s!"{hexOf b} {b.length}" ++ (if bg == b && rt then "" else s!" gen={hexOf bg} {rt}")
 
 /-- `qparse <queries text>` -/
 def opQparse (text : String) : String :=
